@@ -755,8 +755,12 @@ func (e *Engine) coerceTo(env *Env, v Val, s Sort) *Term {
 			return mk(SBytes, "(mkB true str_empty)")
 		}
 	case *SliceV:
-		if s == SBytes {
-			return e.toBytesTerm(env.st, x)
+		if isByteElem(x.ElemT) {
+			bt := e.toBytesTerm(env.st, x)
+			if s == SBytes {
+				return bt
+			}
+			return e.coerceTo(env, bt, s)
 		}
 	}
 	unsupported("cannot use %s as %s", valString(v), s)
